@@ -150,6 +150,9 @@ func (s *c12Svc) wait(ctx context.Context) error {
 }
 
 func (s *c12Svc) Get(ctx context.Context, name string) (*api.SecretValue, error) {
+	if err := ctx.Err(); err != nil { // the client honours an already-ended context
+		return nil, err
+	}
 	if err := s.wait(ctx); err != nil {
 		return nil, err
 	}
@@ -164,6 +167,9 @@ func (s *c12Svc) Get(ctx context.Context, name string) (*api.SecretValue, error)
 }
 
 func (s *c12Svc) GetIfChanged(ctx context.Context, name string, old api.SecretVersion) (*api.SecretValue, error) {
+	if err := ctx.Err(); err != nil {
+		return nil, err
+	}
 	if err := s.wait(ctx); err != nil {
 		return nil, err
 	}
@@ -360,13 +366,22 @@ func c12Child(in c12Input) c12Result {
 	for i := 0; i < in.NDecl; i++ {
 		decl = append(decl, fmt.Sprintf("d%d", i))
 	}
+	// secret names are opaque strings: unclean names live next to their path.Clean twins, with
+	// different values (the scripted service keys on the exact string, every value encodes its name)
+	decl = append(decl, "svc//key", "svc/key", "a/../b", "b")
+	look = append(look, "./x", "x", "team/token/", "team/token")
 	for i := 0; i < in.NLook; i++ {
 		look = append(look, fmt.Sprintf("x/%d", i))
 	}
+	var deadNames []string // names first looked up with an already-ended context
+	for i := 0; i < 3; i++ {
+		deadNames = append(deadNames, fmt.Sprintf("late/%d", i))
+	}
+	nextDead := 0
 	for i := 0; i < in.NCache; i++ {
 		cached = append(cached, fmt.Sprintf("u%d", i))
 	}
-	for _, n := range append(append(append([]string(nil), decl...), look...), cached...) {
+	for _, n := range append(append(append(append([]string(nil), decl...), look...), cached...), deadNames...) {
 		svc.active[n] = 1 + uint32(rng.IntN(3))
 	}
 	// fake wall clock for the store (seconds granularity matters for expiry)
@@ -719,6 +734,79 @@ func c12Child(in c12Input) c12Result {
 			svc.setHold(false)
 			<-done
 			res.Stats["expiry"]++
+		case 10: // LookupSecret of a NEW name with an already-ended context: an error, nothing installed
+			if nextDead >= len(deadNames) {
+				continue
+			}
+			lname := deadNames[nextDead]
+			nextDead++
+			dctx, cancel := context.WithCancel(ctx)
+			if nextDead%2 == 0 {
+				cancel()
+				dctx, cancel = context.WithDeadline(ctx, time.Now().Add(-time.Second))
+			}
+			cancel()
+			type lr struct {
+				h   setec.Secret
+				err error
+			}
+			lookup := func(c context.Context) (lr, bool) {
+				ch := make(chan lr, 1)
+				go func() { h, err := st.LookupSecret(c, lname); ch <- lr{h, err} }()
+				select {
+				case r := <-ch:
+					return r, true
+				case <-time.After(5 * time.Second):
+					return lr{}, false
+				}
+			}
+			got, ok := lookup(dctx)
+			switch {
+			case !ok:
+				res.Direct = "LookupSecret with an already-ended context did not return"
+			case got.err == nil:
+				res.Direct = "LookupSecret of a new name with an already-ended context returned no error"
+			case got.h != nil:
+				res.Direct = "LookupSecret returned an error AND a handle"
+			}
+			if res.Direct != "" {
+				continue
+			}
+			func() { // nothing may have been installed
+				defer func() {
+					if p := recover(); p != nil {
+						res.Direct = fmt.Sprintf("Secret(%q) panicked after a failed lookup: %v", lname, p)
+					}
+				}()
+				if h := st.Secret(lname); h != nil {
+					res.Direct = fmt.Sprintf("Secret(%q) is not nil after a lookup that failed (dead context)", lname)
+					h.Get()
+				}
+			}()
+			if res.Direct != "" {
+				continue
+			}
+			err := refresh() // a poll right after
+			for try := 0; err != nil && try < 3 && res.Direct == ""; try++ {
+				err = refresh()
+			}
+			if err != nil && res.Direct == "" {
+				res.Direct = "Refresh failed after a dead-context lookup: " + err.Error()
+			}
+			if res.Direct != "" || !waitReads("after a lookup with an already-ended context") {
+				continue
+			}
+			got, ok = lookup(ctx) // and a live lookup works
+			if !ok || got.err != nil || got.h == nil {
+				res.Direct = fmt.Sprintf("a live LookupSecret of %q after a dead-context one failed (returned=%v err=%v)", lname, ok, got.err)
+				continue
+			}
+			if _, why := c12Verify(lname, got.h.Get()); why != "" {
+				res.Direct = why
+				continue
+			}
+			sh.publish(lname, got.h)
+			res.Stats["dead-ctx-lookups"]++
 		case 4: // look up a new name (or a dropped cache-only name again)
 			var lname string
 			if nextLook < len(look) {
@@ -824,11 +912,11 @@ func c12Gen(rng *rand.Rand, i int) c12Input {
 		Readers: 2 + rng.IntN(4), Procs: []int{2, 4, 8, 16}[i%4]}
 	n := 10 + rng.IntN(10)
 	for k := 0; k < n; k++ {
-		in.Ops = append(in.Ops, []int{0, 0, 0, 1, 2, 3, 4, 4, 5, 6, 7, 8, 8, 9}[rng.IntN(14)])
+		in.Ops = append(in.Ops, []int{0, 0, 0, 1, 2, 3, 4, 4, 4, 5, 6, 7, 8, 8, 9, 10}[rng.IntN(16)])
 	}
 	in.CloseFail = i%2 == 0
 	// every scenario has at least one of each special phase
-	in.Ops = append(in.Ops, 1, 3, 0, 6, 8, 2, 0)
+	in.Ops = append(in.Ops, 4, 10, 1, 3, 0, 6, 8, 4, 10, 2, 0)
 	return in
 }
 
@@ -887,6 +975,10 @@ func runC12(o Opts) {
 		if res.Stats["watch-windows"] > 0 {
 			rec.Tags = append(rec.Tags, "undrained-watcher")
 		}
+		if res.Stats["dead-ctx-lookups"] > 0 {
+			rec.Tags = append(rec.Tags, "dead-context-lookup")
+		}
+		rec.Tags = append(rec.Tags, "unclean-names")
 		for _, k := range []string{"hold", "expiry", "failing", "lookup", "pinned-after-snapshot"} {
 			if res.Stats[k] > 0 {
 				rec.Tags = append(rec.Tags, k)
